@@ -25,15 +25,15 @@ Schemes == {<<115>>, <<97, 43, 98>>}
 Auths   == IF Rich THEN {<<>>, <<104>>, <<117, 64, 104, 58, 49>>, <<233>>, <<37, 54, 56>>, <<37, 55, 53, 64, 104, 58, 49>>} ELSE {<<>>, <<104>>, <<37, 54, 56>>}
 PathsV  == IF Rich
            THEN {<<>>, <<47>>, <<97>>, <<47, 97>>, <<49, 58, 98>>, <<97, 58, 98>>, <<47, 47, 97>>,
-                 <<46, 47, 97, 58, 98>>, <<47, 46, 47, 47, 97>>, <<233>>, <<97, 47, 46, 46>>, <<47, 47>>}
-           ELSE {<<>>, <<47>>, <<97>>, <<49, 58, 98>>, <<97, 58, 98>>, <<47, 47, 97>>, <<47, 46, 47, 47, 97>>, <<233, 58, 98, 47, 99>>}
+                 <<46, 47, 97, 58, 98>>, <<47, 46, 47, 47, 97>>, <<233>>, <<97, 47, 46, 46>>, <<47, 47>>, <<37, 51, 65, 98>>, <<97, 37, 51, 97>>}
+           ELSE {<<>>, <<47>>, <<97>>, <<49, 58, 98>>, <<97, 58, 98>>, <<47, 47, 97>>, <<47, 46, 47, 47, 97>>, <<233, 58, 98, 47, 99>>, <<37, 51, 65, 98>>}
 Queries == IF Rich THEN {<<>>, <<113>>, <<97, 58, 98, 47, 99, 63, 100>>} ELSE {<<>>, <<113>>}
 Frags   == IF Rich THEN {<<>>, <<102>>, <<97, 47, 98, 63, 99>>} ELSE {<<102>>}
-SegsV   == IF Rich THEN {<<>>, <<97>>, DOT, DOTDOT, <<98, 58, 99>>, <<49, 58, 99>>, <<233>>, <<98, 46, 46>>, <<233, 58, 98>>, <<37, 50, 69, 37, 50, 69>>}
-           ELSE {<<>>, <<97>>, DOTDOT, <<49, 58, 99>>, <<98, 46, 46>>, <<233, 58, 98>>}
+SegsV   == IF Rich THEN {<<>>, <<97>>, DOT, DOTDOT, <<98, 58, 99>>, <<49, 58, 99>>, <<233>>, <<98, 46, 46>>, <<233, 58, 98>>, <<37, 50, 69, 37, 50, 69>>, <<37, 51, 65>>, <<97, 37, 51, 97>>}
+           ELSE {<<>>, <<97>>, DOTDOT, <<49, 58, 99>>, <<98, 46, 46>>, <<233, 58, 98>>, <<37, 51, 65>>}
 Bases   == {<<115, 58, 47, 47, 104, 47, 97, 47, 98>>, <<115, 58, 97>>, <<115, 58, 47, 47, 104>>}
 Users   == {<<>>, <<117>>, <<37, 55, 53>>}
-Hosts   == {<<>>, <<104>>, <<37, 54, 56>>, <<91, 58, 58, 49, 93>>}
+Hosts   == {<<>>, <<104>>, <<37, 54, 56>>, <<91, 58, 58, 49, 93>>, <<72>>}
 Ports   == {<<>>, <<56>>}
 
 Op(name, arg) == [op |-> name, arg |-> arg]
